@@ -53,8 +53,13 @@ THEOREMS = [
     "FaxVerif.C10.collection_loop_typed",
     "FaxVerif.C10.collection_deep_pointer_counterexample",
     "FaxVerif.C10.column_typed_partial",
+    "FaxVerif.C10.col_typed_partial",
+    "FaxVerif.C10.column_addOne_typed",
+    "FaxVerif.C10.column_eqConst_typed",
+    "FaxVerif.C10.deref_var_typed",
     "FaxVerif.C10.tree_type_pointer_counterexample",
     "FaxVerif.C10.enum_qualified",
+    "FaxVerif.C10.enum_first_definition_wins",
     "FaxVerif.C10.enum_dot_refused",
     "FaxVerif.C10.unknown_namespace_refused",
 ]
